@@ -107,3 +107,27 @@ func verifC14Summaries() {
 	vObserve("blen", int64(len(body)))
 	vWitness("c14summaries-end")
 }
+
+// verifC14Held: messages stay valid while held. A record is converted to both message kinds, then a
+// second, different record is converted (as the publishing goroutines do for the next record while
+// the first message waits to be sent); the first messages must still decode to the first record.
+func verifC14Held() {
+	rec := c14Record(vParam("maxdata", 2), vParam("maxcoef", 1))
+	m1 := messageRecords(rec)
+	s1 := messageSummaries(rec)
+	rec2 := *rec
+	rec2.channelIndex = rec.channelIndex ^ 1
+	rec2.trigFrame = rec.trigFrame + 1
+	rec2.presamples = rec.presamples + 1
+	m2 := messageRecords(&rec2)
+	s2 := messageSummaries(&rec2)
+	if len(m1) != 2 || len(s1) != 2 || len(m2) != 2 || len(s2) != 2 || len(m1[0]) != 36 || len(s1[0]) != 48 || len(m2[0]) != 36 || len(s2[0]) != 48 {
+		vCheck(false, "messages have two frames and documented header sizes")
+		return
+	}
+	vCheck(c14u16(m1[0], 0) == uint16(rec.channelIndex) && c14u32(m1[0], 4) == uint32(rec.presamples) && c14u64(m1[0], 28) == uint64(rec.trigFrame), "a held record message still carries its own record after a later conversion")
+	vCheck(c14u16(s1[0], 0) == uint16(rec.channelIndex) && c14u32(s1[0], 4) == uint32(rec.presamples), "a held summary message still carries its own record after a later conversion")
+	vCheck(c14u16(m2[0], 0) == uint16(rec2.channelIndex) && c14u64(m2[0], 28) == uint64(rec2.trigFrame), "the later record message carries the later record")
+	vCheck(c14u16(s2[0], 0) == uint16(rec2.channelIndex), "the later summary message carries the later record")
+	vWitness("c14held-end")
+}
